@@ -44,38 +44,41 @@ Record abs := mkAbs {
   anextid : N;
   anextscript : N;
   astack : list frame;
-  aout : list N }.
+  aout : list N;
+  aoof : bool }.
 
 Definition set_ath (v : list (N * athread)) (a : abs) : abs :=
-  mkAbs v (acl a) (ascripts a) (aelems a) (amtime a) (adirty a) (ascaled a) (alastclk a) (astartclk a) (aclock a) (acur a) (anextid a) (anextscript a) (astack a) (aout a).
+  mkAbs v (acl a) (ascripts a) (aelems a) (amtime a) (adirty a) (ascaled a) (alastclk a) (astartclk a) (aclock a) (acur a) (anextid a) (anextscript a) (astack a) (aout a) (aoof a).
 Definition set_acl (v : list (N * N)) (a : abs) : abs :=
-  mkAbs (ath a) v (ascripts a) (aelems a) (amtime a) (adirty a) (ascaled a) (alastclk a) (astartclk a) (aclock a) (acur a) (anextid a) (anextscript a) (astack a) (aout a).
+  mkAbs (ath a) v (ascripts a) (aelems a) (amtime a) (adirty a) (ascaled a) (alastclk a) (astartclk a) (aclock a) (acur a) (anextid a) (anextscript a) (astack a) (aout a) (aoof a).
 Definition set_ascripts (v : list N) (a : abs) : abs :=
-  mkAbs (ath a) (acl a) v (aelems a) (amtime a) (adirty a) (ascaled a) (alastclk a) (astartclk a) (aclock a) (acur a) (anextid a) (anextscript a) (astack a) (aout a).
+  mkAbs (ath a) (acl a) v (aelems a) (amtime a) (adirty a) (ascaled a) (alastclk a) (astartclk a) (aclock a) (acur a) (anextid a) (anextscript a) (astack a) (aout a) (aoof a).
 Definition set_aelems (v : list (N * N)) (a : abs) : abs :=
-  mkAbs (ath a) (acl a) (ascripts a) v (amtime a) (adirty a) (ascaled a) (alastclk a) (astartclk a) (aclock a) (acur a) (anextid a) (anextscript a) (astack a) (aout a).
+  mkAbs (ath a) (acl a) (ascripts a) v (amtime a) (adirty a) (ascaled a) (alastclk a) (astartclk a) (aclock a) (acur a) (anextid a) (anextscript a) (astack a) (aout a) (aoof a).
 Definition set_amtime (v : N) (a : abs) : abs :=
-  mkAbs (ath a) (acl a) (ascripts a) (aelems a) v (adirty a) (ascaled a) (alastclk a) (astartclk a) (aclock a) (acur a) (anextid a) (anextscript a) (astack a) (aout a).
+  mkAbs (ath a) (acl a) (ascripts a) (aelems a) v (adirty a) (ascaled a) (alastclk a) (astartclk a) (aclock a) (acur a) (anextid a) (anextscript a) (astack a) (aout a) (aoof a).
 Definition set_adirty (v : bool) (a : abs) : abs :=
-  mkAbs (ath a) (acl a) (ascripts a) (aelems a) (amtime a) v (ascaled a) (alastclk a) (astartclk a) (aclock a) (acur a) (anextid a) (anextscript a) (astack a) (aout a).
+  mkAbs (ath a) (acl a) (ascripts a) (aelems a) (amtime a) v (ascaled a) (alastclk a) (astartclk a) (aclock a) (acur a) (anextid a) (anextscript a) (astack a) (aout a) (aoof a).
 Definition set_ascaled (v : N) (a : abs) : abs :=
-  mkAbs (ath a) (acl a) (ascripts a) (aelems a) (amtime a) (adirty a) v (alastclk a) (astartclk a) (aclock a) (acur a) (anextid a) (anextscript a) (astack a) (aout a).
+  mkAbs (ath a) (acl a) (ascripts a) (aelems a) (amtime a) (adirty a) v (alastclk a) (astartclk a) (aclock a) (acur a) (anextid a) (anextscript a) (astack a) (aout a) (aoof a).
 Definition set_alastclk (v : N) (a : abs) : abs :=
-  mkAbs (ath a) (acl a) (ascripts a) (aelems a) (amtime a) (adirty a) (ascaled a) v (astartclk a) (aclock a) (acur a) (anextid a) (anextscript a) (astack a) (aout a).
+  mkAbs (ath a) (acl a) (ascripts a) (aelems a) (amtime a) (adirty a) (ascaled a) v (astartclk a) (aclock a) (acur a) (anextid a) (anextscript a) (astack a) (aout a) (aoof a).
 Definition set_astartclk (v : N) (a : abs) : abs :=
-  mkAbs (ath a) (acl a) (ascripts a) (aelems a) (amtime a) (adirty a) (ascaled a) (alastclk a) v (aclock a) (acur a) (anextid a) (anextscript a) (astack a) (aout a).
+  mkAbs (ath a) (acl a) (ascripts a) (aelems a) (amtime a) (adirty a) (ascaled a) (alastclk a) v (aclock a) (acur a) (anextid a) (anextscript a) (astack a) (aout a) (aoof a).
 Definition set_aclock (v : N) (a : abs) : abs :=
-  mkAbs (ath a) (acl a) (ascripts a) (aelems a) (amtime a) (adirty a) (ascaled a) (alastclk a) (astartclk a) v (acur a) (anextid a) (anextscript a) (astack a) (aout a).
+  mkAbs (ath a) (acl a) (ascripts a) (aelems a) (amtime a) (adirty a) (ascaled a) (alastclk a) (astartclk a) v (acur a) (anextid a) (anextscript a) (astack a) (aout a) (aoof a).
 Definition set_acur (v : option N) (a : abs) : abs :=
-  mkAbs (ath a) (acl a) (ascripts a) (aelems a) (amtime a) (adirty a) (ascaled a) (alastclk a) (astartclk a) (aclock a) v (anextid a) (anextscript a) (astack a) (aout a).
+  mkAbs (ath a) (acl a) (ascripts a) (aelems a) (amtime a) (adirty a) (ascaled a) (alastclk a) (astartclk a) (aclock a) v (anextid a) (anextscript a) (astack a) (aout a) (aoof a).
 Definition set_anextid (v : N) (a : abs) : abs :=
-  mkAbs (ath a) (acl a) (ascripts a) (aelems a) (amtime a) (adirty a) (ascaled a) (alastclk a) (astartclk a) (aclock a) (acur a) v (anextscript a) (astack a) (aout a).
+  mkAbs (ath a) (acl a) (ascripts a) (aelems a) (amtime a) (adirty a) (ascaled a) (alastclk a) (astartclk a) (aclock a) (acur a) v (anextscript a) (astack a) (aout a) (aoof a).
 Definition set_anextscript (v : N) (a : abs) : abs :=
-  mkAbs (ath a) (acl a) (ascripts a) (aelems a) (amtime a) (adirty a) (ascaled a) (alastclk a) (astartclk a) (aclock a) (acur a) (anextid a) v (astack a) (aout a).
+  mkAbs (ath a) (acl a) (ascripts a) (aelems a) (amtime a) (adirty a) (ascaled a) (alastclk a) (astartclk a) (aclock a) (acur a) (anextid a) v (astack a) (aout a) (aoof a).
 Definition set_astack (v : list frame) (a : abs) : abs :=
-  mkAbs (ath a) (acl a) (ascripts a) (aelems a) (amtime a) (adirty a) (ascaled a) (alastclk a) (astartclk a) (aclock a) (acur a) (anextid a) (anextscript a) v (aout a).
+  mkAbs (ath a) (acl a) (ascripts a) (aelems a) (amtime a) (adirty a) (ascaled a) (alastclk a) (astartclk a) (aclock a) (acur a) (anextid a) (anextscript a) v (aout a) (aoof a).
 Definition set_aout (v : list N) (a : abs) : abs :=
-  mkAbs (ath a) (acl a) (ascripts a) (aelems a) (amtime a) (adirty a) (ascaled a) (alastclk a) (astartclk a) (aclock a) (acur a) (anextid a) (anextscript a) (astack a) v.
+  mkAbs (ath a) (acl a) (ascripts a) (aelems a) (amtime a) (adirty a) (ascaled a) (alastclk a) (astartclk a) (aclock a) (acur a) (anextid a) (anextscript a) (astack a) v (aoof a).
+Definition set_aoof (v : bool) (a : abs) : abs :=
+  mkAbs (ath a) (acl a) (ascripts a) (aelems a) (amtime a) (adirty a) (ascaled a) (alastclk a) (astartclk a) (aclock a) (acur a) (anextid a) (anextscript a) (astack a) (aout a) v.
 
 Fixpoint afind (t : N) (l : list (N * athread)) : option athread :=
   match l with
@@ -328,8 +331,9 @@ Fixpoint a_run_stack (f : nat) (a : abs) : abs :=
   match astack a with
   | [] => a
   | _ :: _ =>
+      if aoof a then a else
       match f with
-      | O => a
+      | O => set_aoof true a                              (* the step loop ran out of fuel *)
       | S f' => a_run_stack f' (a_step a)
       end
   end.
@@ -337,9 +341,9 @@ Fixpoint a_run_stack (f : nat) (a : abs) : abs :=
 Definition a_weight (a : abs) : nat :=
   (fold_right (fun fr n => fsize fr + n) O (astack a)
    + fold_right (fun x n => S (psize (a_cont (snd x))) + n) O (ath a))%nat.
-Definition a_sfuel (a : abs) : nat := (16 + 8 * (a_weight a + length (astack a)))%nat.
+Definition a_sfuel (a : abs) : nat := (16 + 8 * a_weight a)%nat.
 
-Definition abs_init (c : N) : abs := mkAbs [] [] [] [] 0 false 0 c c c None 0 0 [] [].
+Definition abs_init (c : N) : abs := mkAbs [] [] [] [] 0 false 0 c c c None 0 0 [] [] false.
 
 Definition a_host_step (a0 : abs) (o : op) : abs :=
   let a := set_aout [] a0 in
@@ -368,7 +372,7 @@ Definition a_observe (a : abs) : obs :=
         (match acl a with [] => true | _ => false end)
         (length (acl a)) (length (ath a)) (length (ath a)) (length (ascripts a))
         (match aelems a with [] => false | _ => true end)
-        O.
+        (if aoof a then 2 else 0)%nat.
 
 Fixpoint spec_from (a : abs) (ops : list op) : list obs :=
   match ops with
